@@ -2009,55 +2009,42 @@ func (x *extractor) rangeStmt(s *ast.RangeStmt) {
 	x.emit(&node{kind: "loop", pos: s.Pos(), v: at.id, from: konst(0), to: to, step: 1, over: role, body: body})
 }
 
-// loopHeader analyses `for v := S; v ⋈ E; v±±`.  The condition is read in
-// condition normal form with v bound to the loop symbol, so `v < E`, `E > v`,
-// `!(v >= E)` and `v <= E-1` give the same bounds.
-func (x *extractor) loopHeader(s *ast.ForStmt) (o types.Object, at *atom, from, to *lin, step int64, excl, ok bool) {
-	as, isAs := s.Init.(*ast.AssignStmt)
-	if !isAs || (as.Tok != token.DEFINE && as.Tok != token.ASSIGN) || len(as.Lhs) != 1 || len(as.Rhs) != 1 {
-		return
-	}
-	id, isId := unparen(as.Lhs[0]).(*ast.Ident)
-	if !isId {
-		return
-	}
-	o = objOf(x.info, id)
-	start := x.ev(as.Rhs[0])
-	if o == nil || start.k != svInt || s.Cond == nil {
-		return
-	}
-	isVar := func(e ast.Expr) bool {
-		i, ok := unparen(e).(*ast.Ident)
-		return ok && objOf(x.info, i) == o
-	}
-	// post
-	switch p := s.Post.(type) {
+// stepOf recognises a counter update  v++ / v-- / v += c / v -= c / v = v ± c
+// / v = c + v  and returns the variable and the signed step.
+func (x *extractor) stepOf(st ast.Stmt) (types.Object, int64) {
+	switch p := st.(type) {
 	case *ast.IncDecStmt:
-		if !isVar(p.X) {
-			return
-		}
-		step = 1
-		if p.Tok == token.DEC {
-			step = -1
+		if id, ok := unparen(p.X).(*ast.Ident); ok {
+			if p.Tok == token.DEC {
+				return objOf(x.info, id), -1
+			}
+			return objOf(x.info, id), 1
 		}
 	case *ast.AssignStmt:
-		if len(p.Lhs) != 1 || len(p.Rhs) != 1 || !isVar(p.Lhs[0]) {
-			return
+		if len(p.Lhs) != 1 || len(p.Rhs) != 1 {
+			return nil, 0
+		}
+		id, ok := unparen(p.Lhs[0]).(*ast.Ident)
+		if !ok {
+			return nil, 0
+		}
+		o := objOf(x.info, id)
+		isVar := func(e ast.Expr) bool {
+			i, ok := unparen(e).(*ast.Ident)
+			return ok && objOf(x.info, i) == o
 		}
 		switch p.Tok {
 		case token.ADD_ASSIGN, token.SUB_ASSIGN:
-			c, isC := x.constOf(p.Rhs[0])
-			if !isC {
-				return
-			}
-			step = c
-			if p.Tok == token.SUB_ASSIGN {
-				step = -c
+			if c, isC := x.constOf(p.Rhs[0]); isC {
+				if p.Tok == token.SUB_ASSIGN {
+					c = -c
+				}
+				return o, c
 			}
 		case token.ASSIGN:
 			be, isB := unparen(p.Rhs[0]).(*ast.BinaryExpr)
 			if !isB || (be.Op != token.ADD && be.Op != token.SUB) {
-				return
+				return nil, 0
 			}
 			var ce ast.Expr
 			switch {
@@ -2066,62 +2053,142 @@ func (x *extractor) loopHeader(s *ast.ForStmt) (o types.Object, at *atom, from, 
 			case isVar(be.Y) && be.Op == token.ADD:
 				ce = be.X
 			default:
-				return
+				return nil, 0
 			}
-			c, isC := x.constOf(ce)
-			if !isC {
-				return
+			if c, isC := x.constOf(ce); isC {
+				if be.Op == token.SUB {
+					c = -c
+				}
+				return o, c
 			}
-			step = c
-			if be.Op == token.SUB {
-				step = -c
+		}
+	}
+	return nil, 0
+}
+
+// hasContinue reports whether a `continue` of THIS loop occurs in the body
+// (conservatively: any unlabelled continue outside nested loops, any labelled one).
+func hasContinue(list []ast.Stmt) bool {
+	found := false
+	var walk func(n ast.Node) bool
+	walk = func(n ast.Node) bool {
+		switch n := n.(type) {
+		case *ast.ForStmt, *ast.RangeStmt, *ast.FuncLit:
+			// a labelled continue inside may still target the outer loop
+			ast.Inspect(n, func(m ast.Node) bool {
+				if br, ok := m.(*ast.BranchStmt); ok && br.Tok == token.CONTINUE && br.Label != nil {
+					found = true
+				}
+				return !found
+			})
+			return false
+		case *ast.BranchStmt:
+			if n.Tok == token.CONTINUE {
+				found = true
 			}
-		default:
+		}
+		return !found
+	}
+	for _, st := range list {
+		ast.Inspect(st, walk)
+	}
+	return found
+}
+
+// counted is a loop brought to the form "v runs from `from` to `to` by step,
+// body" — whatever its spelling:
+//
+//	for v := S; c(v); v±± { body }        three clauses
+//	for ; c(v); v±± { body }              the counter keeps its current value
+//	for c(v) { body; v±± }                while form (no continue in body)
+//
+// The condition is read in condition normal form with v bound to the loop
+// symbol, so v < E, E > v, !(v >= E) and v <= E-1 give the same bounds.
+type counted struct {
+	o        types.Object
+	at       *atom
+	from, to *lin
+	step     int64
+	excl     bool
+	body     []ast.Stmt
+	outer    bool // the counter is declared outside the loop
+}
+
+func (x *extractor) countedLoop(s *ast.ForStmt) (c counted, ok bool) {
+	if s.Cond == nil {
+		return
+	}
+	c.body = s.Body.List
+	post := s.Post
+	if post == nil && s.Init == nil && len(c.body) > 0 && !hasContinue(c.body) {
+		post = c.body[len(c.body)-1]
+		c.body = c.body[:len(c.body)-1]
+	}
+	if post == nil {
+		return
+	}
+	c.o, c.step = x.stepOf(post)
+	if c.o == nil || c.step == 0 {
+		return
+	}
+	var start *sval
+	switch init := s.Init.(type) {
+	case nil:
+		start = x.lookupObj(c.o)
+		c.outer = true
+	case *ast.AssignStmt:
+		if (init.Tok != token.DEFINE && init.Tok != token.ASSIGN) || len(init.Lhs) != 1 || len(init.Rhs) != 1 {
 			return
 		}
+		id, isId := unparen(init.Lhs[0]).(*ast.Ident)
+		if !isId || objOf(x.info, id) != c.o {
+			return
+		}
+		start = x.ev(init.Rhs[0])
+		c.outer = init.Tok == token.ASSIGN
 	default:
 		return
 	}
-	if step == 0 {
+	if start.k != svInt {
 		return
 	}
 	// cond: ±v + rest > 0 with rest independent of v
-	at = x.sym.fresh("loop", "")
-	save, had := x.env[o]
-	x.env[o] = &sval{k: svInt, n: x.sym.atomLin(at)}
-	c := x.evCond(s.Cond)
+	c.at = x.sym.fresh("loop", "")
+	atL := x.sym.atomLin(c.at)
+	save, had := x.env[c.o]
+	x.env[c.o] = &sval{k: svInt, n: atL}
+	cn := x.evCond(s.Cond)
 	if had {
-		x.env[o] = save
+		x.env[c.o] = save
 	} else {
-		delete(x.env, o)
+		delete(x.env, c.o)
 	}
-	if c.kind != "int" || c.rel != ">0" {
+	if cn.kind != "int" || cn.rel != ">0" {
 		return
 	}
-	k := c.n.t[at.id]
-	rest := c.n.addScaled(x.sym.atomLin(at), -k)
-	if rest.mentions(at.id, x.sym.atoms) {
+	k := cn.n.t[c.at.id]
+	rest := cn.n.addScaled(atL, -k)
+	if rest.mentions(c.at.id, x.sym.atoms) {
 		return
 	}
-	from = start.n
+	c.from = start.n
 	switch {
-	case step > 0 && k == -1: // v < rest
-		if step == 1 {
-			to = rest.addConst(-1)
+	case c.step > 0 && k == -1: // v < rest
+		if c.step == 1 {
+			c.to = rest.addConst(-1)
 		} else {
-			to, excl = rest, true
+			c.to, c.excl = rest, true
 		}
-	case step < 0 && k == 1: // v > -rest
-		if step == -1 {
-			to = rest.scale(-1).addConst(1)
+	case c.step < 0 && k == 1: // v > -rest
+		if c.step == -1 {
+			c.to = rest.scale(-1).addConst(1)
 		} else {
-			to, excl = rest.scale(-1), true
+			c.to, c.excl = rest.scale(-1), true
 		}
 	default:
 		return
 	}
-	ok = true
-	return
+	return c, true
 }
 
 func (x *extractor) forStmt(s *ast.ForStmt) {
@@ -2129,30 +2196,76 @@ func (x *extractor) forStmt(s *ast.ForStmt) {
 		x.foreverStmt(s)
 		return
 	}
-	o, at, from, to, step, excl, ok := x.loopHeader(s)
+	c, ok := x.countedLoop(s)
 	if !ok {
 		// evaluate what we can, flag if the body matters
 		if s.Init != nil {
 			x.stmt(s.Init)
 		}
 		x.depth++
-		body := x.collect(func() { x.stmts(s.Body.List) })
+		body := x.collect(func() {
+			x.stmts(s.Body.List)
+			if s.Post != nil {
+				x.stmt(s.Post)
+			}
+		})
 		x.depth--
 		x.emit(&node{kind: "badloop", pos: s.Pos(), body: body})
 		return
 	}
-	if x.scanLoop(s, o, from, to, step) {
+	if x.scanLoop(s, c) {
 		return
 	}
-	x.env[o] = &sval{k: svInt, n: x.sym.atomLin(at)}
-	x.declAt[o] = x.depth
+	x.env[c.o] = &sval{k: svInt, n: x.sym.atomLin(c.at)}
+	x.declAt[c.o] = x.depth
 	x.depth++
-	body := x.collect(func() { x.stmts(s.Body.List) })
+	body := x.collect(func() { x.stmts(c.body) })
 	x.depth--
-	x.emit(&node{kind: "loop", pos: s.Pos(), v: at.id, from: from, to: to, step: step, excl: excl, body: body})
-	if as, isAs := s.Init.(*ast.AssignStmt); isAs && as.Tok == token.ASSIGN {
-		x.env[o] = &sval{} // a counter declared outside the loop: its final value is not tracked
+	x.emitLoop(&node{kind: "loop", pos: s.Pos(), v: c.at.id, from: c.from, to: c.to, step: c.step, excl: c.excl, body: body})
+	if c.outer {
+		x.env[c.o] = &sval{} // a counter declared outside the loop: its final value is not tracked
 	}
+}
+
+// emitLoop emits a counted loop in canonical direction: when the iterations
+// are independent of each other (every statement stores a loop-invariant
+// value, or the identity, into element [v] of an array and nothing else) the
+// visiting order is unobservable, and the loop is recorded counting up.
+func (x *extractor) emitLoop(n *node) {
+	if n.step == -1 && !n.excl && x.independentIterations(n) {
+		n.from, n.to, n.step = n.to, n.from, 1
+	}
+	x.emit(n)
+}
+
+func (x *extractor) independentIterations(n *node) bool {
+	if len(n.body) == 0 {
+		return false
+	}
+	v := &lin{t: map[string]int64{n.v: 1}}
+	written := map[types.Object]bool{}
+	for _, b := range n.body {
+		switch b.kind {
+		case "I":
+		case "conv", "copy":
+			// source: a location that is not an element of an array
+			if b.a == nil || b.a.elem {
+				return false
+			}
+		default:
+			return false
+		}
+		if b.dst == nil || !b.dst.elem || b.dst.idx == nil || !b.dst.idx.equal(v) || b.dst.didx != nil {
+			return false
+		}
+		written[b.dst.root] = true
+	}
+	for _, b := range n.body {
+		if b.a != nil && written[b.a.root] {
+			return false
+		}
+	}
+	return true
 }
 
 // foreverStmt handles `for { body; if v == E { break }; v-- }` (and v++): a
@@ -2169,47 +2282,9 @@ func (x *extractor) foreverStmt(s *ast.ForStmt) {
 		bad()
 		return
 	}
-	// the counter update: v--, v++, v -= 1, v += 1, v = v - 1
-	var o types.Object
-	step := int64(0)
-	switch inc := list[len(list)-1].(type) {
-	case *ast.IncDecStmt:
-		if id, ok := unparen(inc.X).(*ast.Ident); ok {
-			o = objOf(x.info, id)
-			step = 1
-			if inc.Tok == token.DEC {
-				step = -1
-			}
-		}
-	case *ast.AssignStmt:
-		if len(inc.Lhs) == 1 && len(inc.Rhs) == 1 {
-			if id, ok := unparen(inc.Lhs[0]).(*ast.Ident); ok {
-				obj := objOf(x.info, id)
-				switch inc.Tok {
-				case token.ADD_ASSIGN, token.SUB_ASSIGN:
-					if c, isC := x.constOf(inc.Rhs[0]); isC && (c == 1 || c == -1) {
-						o, step = obj, c
-						if inc.Tok == token.SUB_ASSIGN {
-							step = -c
-						}
-					}
-				case token.ASSIGN:
-					if be, isB := unparen(inc.Rhs[0]).(*ast.BinaryExpr); isB && (be.Op == token.ADD || be.Op == token.SUB) {
-						if i, ok := unparen(be.X).(*ast.Ident); ok && objOf(x.info, i) == obj {
-							if c, isC := x.constOf(be.Y); isC && (c == 1 || c == -1) {
-								o, step = obj, c
-								if be.Op == token.SUB {
-									step = -c
-								}
-							}
-						}
-					}
-				}
-			}
-		}
-	}
+	o, step := x.stepOf(list[len(list)-1])
 	test, ok2 := list[len(list)-2].(*ast.IfStmt)
-	if o == nil || step == 0 || !ok2 || test.Init != nil || test.Else != nil || len(test.Body.List) != 1 {
+	if o == nil || (step != 1 && step != -1) || !ok2 || test.Init != nil || test.Else != nil || len(test.Body.List) != 1 || hasContinue(list) {
 		bad()
 		return
 	}
@@ -2245,20 +2320,28 @@ func (x *extractor) foreverStmt(s *ast.ForStmt) {
 	body := x.collect(func() { x.stmts(list[:len(list)-2]) })
 	x.depth--
 	x.env[o] = &sval{}
-	x.emit(&node{kind: "loop", pos: s.Pos(), v: at.id, from: start.n, to: end, step: step, body: body})
+	x.emitLoop(&node{kind: "loop", pos: s.Pos(), v: at.id, from: start.n, to: end, step: step, body: body})
 }
 
-// scanLoop recognises the start-index scan
+// scanLoop recognises the start-index search: a loop counting DOWN over the
+// positions from..to whose body only tests, in condition normal form, a
+// disjunction of  digit@position != 0  and leaves the loop on the first hit,
 //
 //	for j := HI; j >= LO; j-- { [i = j;] if d1[.] != 0 || d2[.] != 0 ... { [i = j;] break } }
+//	i := HI; for i > LO { if d1[i] != 0 || ... { break }; i-- }           (the counter is the result)
 //
-// which leaves in i the highest position at which one of the recodings has a
-// non-zero digit (LO if there is none).  It emits a `scan` event and binds i
-// to the symbol top(...).
-func (x *extractor) scanLoop(s *ast.ForStmt, j types.Object, from, to *lin, step int64) bool {
-	if step != -1 {
+// It leaves in i the highest position at which one of the recodings has a
+// non-zero digit, or the lowest position when there is none.  (In the second
+// form the lowest position LO is never tested but is the value the counter
+// ends with; since "the highest non-zero position, else LO" does not depend on
+// whether LO itself is tested, both forms denote scan(HI..LO).)  It emits a
+// `scan` event and binds i to the symbol top(...).
+func (x *extractor) scanLoop(s *ast.ForStmt, c counted) bool {
+	if c.step != -1 {
 		return false
 	}
+	j := c.o
+	from, to := c.from, c.to
 	var target types.Object
 	var test *ast.IfStmt
 	assignBefore := false
@@ -2277,7 +2360,7 @@ func (x *extractor) scanLoop(s *ast.ForStmt, j types.Object, from, to *lin, step
 		}
 		return objOf(x.info, id), true
 	}
-	for _, st := range s.Body.List {
+	for _, st := range c.body {
 		if o, ok := isAssignJ(st); ok && test == nil && target == nil {
 			target, assignBefore = o, true
 			continue
@@ -2304,6 +2387,13 @@ func (x *extractor) scanLoop(s *ast.ForStmt, j types.Object, from, to *lin, step
 		}
 		return false
 	}
+	self := false
+	if target == nil && c.outer && hasBreak {
+		// the counter itself is the result: it ends one step below `to` when
+		// nothing is found
+		target, self = j, true
+		to = to.addConst(-1)
+	}
 	if !hasBreak || target == nil {
 		return false
 	}
@@ -2319,10 +2409,10 @@ func (x *extractor) scanLoop(s *ast.ForStmt, j types.Object, from, to *lin, step
 	okCond := true
 	// in condition normal form: a disjunction of  digit@j != 0  literals
 	// (`a != 0 || b != 0`, `!(a == 0 && b == 0)`, `b != 0 || a != 0`, ...)
-	c := x.evCond(test.Cond)
-	lits := []*cond{c}
-	if c.kind == "or" {
-		lits = c.sub
+	cn := x.evCond(test.Cond)
+	lits := []*cond{cn}
+	if cn.kind == "or" {
+		lits = cn.sub
 	}
 	for _, l := range lits {
 		if l.kind != "dig" || l.rel != "!=0" || l.dig.pos == nil || !l.dig.pos.equal(x.sym.atomLin(at)) {
@@ -2334,11 +2424,13 @@ func (x *extractor) scanLoop(s *ast.ForStmt, j types.Object, from, to *lin, step
 	}
 	x.env[j] = saveJ
 	if !okCond || len(srcs) == 0 {
-		x.env[target] = saveT
+		if !self {
+			x.env[target] = saveT
+		}
 		return false
 	}
 	// without an unconditional assignment the default is the initial value of i
-	if !assignBefore {
+	if !assignBefore && !self {
 		init := saveT
 		if init == nil {
 			init = x.lookupObj(target)
